@@ -43,6 +43,7 @@ def _root_.CV.GenReg.RStmt.names : RStmt → List Atom
   | .bin v _ a b => v.names ++ a.names ++ b.names
   | .opasg v _ a => v.names ++ a.names
   | .inc v | .dec v => v.names
+  | .chain v a _ b1 ops => v.names ++ a.names ++ b1.names ++ ops.flatMap fun p => p.2.names
   | .asgW s a => [.var s, .el s (.k 1)] ++ a.lo.names ++ a.hi.names
   | .binW s _ a b => [.var s, .el s (.k 1)] ++ a.lo.names ++ a.hi.names ++ b.lo.names ++ b.hi.names
   | .opasgW s _ a => [.var s, .el s (.k 1)] ++ a.lo.names ++ a.hi.names
@@ -81,7 +82,13 @@ def NoTmp (L : Layout) (ns : List Atom) : Prop := ∀ a ∈ ns, CellOK L a
 def binPure (L : Layout) (σ : SrcSt) (v : LV) (op : BOp) (x y : RA) : SrcSt :=
   wr L σ v (op.apply (rval L σ x) (rval L σ y))
 
+/-- the plain value of a chain: a left fold over the operands -/
+def chainPure (L : Layout) (σ : SrcSt) : Byte → List (BOp × RA) → Byte
+  | acc, [] => acc
+  | acc, (op, y) :: rest => chainPure L σ (op.apply acc (rval L σ y)) rest
+
 def pureSpec (L : Layout) (σ : SrcSt) : RStmt → SrcSt
+  | .chain v a op1 b1 ops => wr L σ v (chainPure L σ (op1.apply (rval L σ a) (rval L σ b1)) ops)
   | .asg v a => wr L σ v (rval L σ a)
   | .bin v op a b => binPure L σ v op a b
   | .opasg v op a => binPure L σ v op v.ra a
@@ -259,6 +266,29 @@ theorem binWSpec_eqOff (L : Layout) {σ τ : SrcSt} (h : EqOff L σ τ) (s : Str
   rw [rval_eqOff L h1 (.of x.hi) hxh, rval_eqOff L h1 (.of y.hi) hyh]
   exact wr_eqOff L h1 _ _
 
+theorem chainVal_pure (L : Layout) (ops : List (BOp × RA)) {σ τ : SrcSt} (h : EqOff L σ τ) (acc : Byte)
+    (hn : NoTmp L (ops.flatMap fun p => p.2.names)) :
+    (chainVal L σ acc ops).2 = chainPure L τ acc ops ∧ EqOff L (chainVal L σ acc ops).1 τ := by
+  induction ops generalizing σ acc with
+  | nil => exact ⟨rfl, h⟩
+  | cons p rest ih =>
+    obtain ⟨op, y⟩ := p
+    have hy : NoTmp L y.names := fun a ha => hn a (by simp [ha])
+    have hr : NoTmp L (rest.flatMap fun p => p.2.names) := fun a ha => hn a (by simp at ha ⊢; exact Or.inr ha)
+    simp only [chainVal, chainPure]
+    rw [rval_eqOff L h y hy]
+    exact ih ((tmpWrite_eqOff L σ op y).trans h) _ hr
+
+theorem rordered_apply (L : Layout) (τ : SrcSt) (op : BOp) (a b : RA) :
+    op.apply (rval L τ (rordered op a b).1) (rval L τ (rordered op a b).2) = op.apply (rval L τ a) (rval L τ b) := by
+  unfold rordered
+  split
+  · rename_i hc
+    have : op.commutes = true := by
+      simp only [Bool.and_eq_true] at hc; exact hc.1.1
+    exact apply_comm_of op _ _ this
+  · rfl
+
 /-- one statement: the specification with scratch cell and the plain reading agree off the scratch cell -/
 theorem rspec_pure (L : Layout) {σ τ : SrcSt} (h : EqOff L σ τ) (st : RStmt) (hn : NoTmp L st.names) :
     EqOff L (rspec L σ st) (pureSpec L τ st) := by
@@ -286,6 +316,24 @@ theorem rspec_pure (L : Layout) {σ τ : SrcSt} (h : EqOff L σ τ) (st : RStmt)
     simp only [rspec, pureSpec]
     rw [rval_eqOff L h v.ra (by rw [ra_names_lv]; exact hn)]
     exact wr_eqOff L h v _
+  | chain v a op1 b1 ops =>
+    simp only [rspec, pureSpec, chainSpec]
+    have ha : NoTmp L a.names := NoTmp.right (NoTmp.left (NoTmp.left hn))
+    have hb : NoTmp L b1.names := NoTmp.right (NoTmp.left hn)
+    have ho : NoTmp L (ops.flatMap fun p => p.2.names) := NoTmp.right hn
+    have hr := rordered_names L op1 a b1 ha hb
+    have hall : NoTmp L (((op1, (rordered op1 a b1).2) :: ops).flatMap fun p => p.2.names) := by
+      intro x hx
+      simp only [List.flatMap_cons, List.mem_append] at hx
+      rcases hx with hx | hx
+      · exact hr.2 x hx
+      · exact ho x hx
+    rw [rval_eqOff L h (rordered op1 a b1).1 hr.1]
+    obtain ⟨e1, e2⟩ := chainVal_pure L ((op1, (rordered op1 a b1).2) :: ops) h (rval L τ (rordered op1 a b1).1) hall
+    rw [e1]
+    simp only [chainPure]
+    rw [rordered_apply]
+    exact wr_eqOff L e2 v _
   | asgW s a =>
     simp only [rspec, pureSpec]
     exact asgWSpec_eqOff L h s a (NoTmp.right (NoTmp.left hn)) (NoTmp.right hn)
